@@ -53,7 +53,7 @@ class Net:
     messages to an unbound address wait for the bind, messages to a dead endpoint are lost.
 
     cfg keys: lat=(lo_ns, hi_ns); faultable(frames, addr)->bool; drop_pct, dup_pct;
-    max_consecutive_drops (fair loss); plan = {"drop": set(n), "dup": set(n)} explicit faults on the
+    max_drops_per_message + fault_key(frames, addr) (fair loss: total drops of the frames and acks of one logical message); plan = {"drop": set(n), "dup": set(n)} explicit faults on the
     n-th faultable frame; partition(kernel, addr, frames)->bool: faultable traffic dropped entirely while true.
     """
 
@@ -118,19 +118,21 @@ class Net:
                 if dp or up:
                     r = kk.ch.draw(100)
                     if r < dp:
-                        cap = cfg.get("max_consecutive_drops")
-                        if cap is None or self.consec[(link, addr)] < cap:
+                        cap = cfg.get("max_drops_per_message")
+                        key = cfg["fault_key"](frames, addr) if cap is not None else None
+                        if cap is None or self.consec[key] < cap:
                             drop = True
+                            self.consec[key] += 1
+                        else:
+                            self.stats["drop_capped"] += 1
                     elif r >= 100 - up:
                         dup = True
             if drop:
-                self.consec[(link, addr)] += 1
                 self.stats["dropped"] += 1
                 kk.fire("drop")
                 kk.log("net.drop", addr, n)
                 self._wire("drop", addr, frames, n)
                 return
-            self.consec[(link, addr)] = 0
             if dup:
                 copies = 2
                 self.stats["dup"] += 1
